@@ -221,6 +221,7 @@ def immediate(run, F, E):
         for fn in F.find(tk, m):
             if not fn.params or fn.params[0]['n'] != 'stateId_':
                 continue
+            fn = anchors.through_forwarders(F, fn)      # a public wrapper that only forwards to a non-public implementation
             c = cfgmod.cfg_of(fn)
             calls, uncond, ordered = anchors.ordered_events(c, lambda n: n.kind == 'call')
             names = [n.e.get('m') for n in calls]
